@@ -8,9 +8,11 @@ package jrpc2
 //@ spec opaque linked(bs []eth.Block, k int) bool = beq(bs[k].Header.Parent, bs[k-1].Header.Hash)
 //@ func validate props=C07,C03
 //@   ensures [nonempty] result == nil ==> len(blocks) >= 1
-//@   ensures [numbers] result == nil && uint64(len(blocks)) == limit ==> (forall i int :: 0 <= i && i < len(blocks) ==> uint64(blocks[i].Header.Number) == start + uint64(i))
+//@   ensures [count] result == nil ==> uint64(len(blocks)) == limit
+//@   ensures [numbers] result == nil ==> (forall i int :: 0 <= i && i < len(blocks) ==> uint64(blocks[i].Header.Number) == start + uint64(i))
 //@   ensures [linked] result == nil ==> (forall i int :: 1 <= i && i < len(blocks) ==> linked(blocks, i))
 //@   loop#0 invariant 1 <= i && i <= len(blocks)
+//@   loop#0 invariant forall k int :: 0 <= k && k < i ==> uint64(blocks[k].Header.Number) == start + uint64(k)
 //@   loop#0 invariant forall k int :: 1 <= k && k < i ==> linked(blocks, k)
 
 //@ func (Error).Exists props=C07
